@@ -294,6 +294,10 @@ func (c *conn) serve() {
 		m, err := c.readMessage()
 		if err != nil {
 			c.rwc.Close()
+			// The connection is gone: who asked for CloseNotify is told
+			// now, before the error is reported, so that an ErrorReporter
+			// may ask the report's connection for the channel and wait.
+			c.notifyClientGone()
 			// Report errors to the channel, except EOF.
 			if err != io.EOF && err != io.ErrUnexpectedEOF {
 				h := c.server.Handler
